@@ -667,6 +667,7 @@ pub fn gen_leak(seed: u64) -> Scenario {
         page_sizes: vec![],
         extra_empty_last_page: r.chance(1, 4),
         stall_at_page: stall,
+        paged_ctrl_pos: None,
     });
     let mut slot_ctr = vec![0usize; nclients];
     for round in 0..rounds {
@@ -1085,6 +1086,7 @@ pub fn gen_time(seed: u64) -> Scenario {
         page_sizes: vec![],
         extra_empty_last_page: false,
         stall_at_page: stall,
+        paged_ctrl_pos: None,
     });
     let nclients = 1 + r.usize(3);
     for c in 0..nclients {
@@ -1274,6 +1276,22 @@ pub fn gen_frame_base(seed: u64) -> Scenario {
     let nclients = 1 + r.usize(4);
     let big = r.chance(1, 5);
     let big_client = r.usize(nclients);
+    // one run in six: a search answered with 60-200 small entries in one burst (more messages decodable
+    // back to back than any fixed per-turn budget of the driver)
+    let many = !big && r.chance(1, 6);
+    let many_client = r.usize(nclients);
+    // one run in four: notices with message ID 0 inside the burst (scheduled for the same instant)
+    if r.chance(1, 4) {
+        for i in 0..1 + r.usize(2) {
+            let label = format!("notice{i}");
+            sc.plan.unsolicited.push(Unsol {
+                at_ms: 5,
+                id: UnsolId::Zero,
+                op: RespOp::Result { tag: 24, res: ResultSpec { exop_name: Some("1.3.6.1.4.1.1466.20036".into()), ..gen_result(&mut r, &label) } },
+                ctrls: None,
+            });
+        }
+    }
     for c in 0..nclients {
         let mut cs = ClientScript::default();
         let tok = format!("c{c}s0");
@@ -1291,6 +1309,12 @@ pub fn gen_frame_base(seed: u64) -> Scenario {
                     if big && c == big_client {
                         let size = *r.pick(&[3000usize, 9000, 20_000, 65_000, 66_000, 70_000, 131_000, 200_000]);
                         items.insert(0, ItemPlan { gap_ms: 0, op: RespOp::Entry { dn: format!("cn={tok}:big"), attrs: vec![("blob".into(), vec![r.bytes(size)])] }, ctrls: None });
+                    }
+                    if many && c == many_client {
+                        let n = 60 + r.usize(141);
+                        for i in 0..n {
+                            items.push(ItemPlan { gap_ms: 0, op: RespOp::Entry { dn: format!("cn={i:04},{tok}"), attrs: vec![] }, ctrls: None });
+                        }
                     }
                     if let Some(f) = items.first_mut() {
                         f.gap_ms = 5;
@@ -1655,11 +1679,13 @@ pub fn gen_paged(seed: u64) -> Scenario {
         empty_first_page: r.chance(1, 6),
         supports_paging: !r.chance(1, 8),
         final_rc: if r.chance(2, 3) { 0 } else { *r.pick(RESULT_CODES) },
-        other_ctrls: if r.chance(1, 3) { vec![Ctl { oid: gen_oid(&mut r).into_bytes(), crit: None, val: Some(b"other".to_vec()) }] } else { vec![] },
+        // 0-4 other response controls on every SearchResultDone, the paging control anywhere among them
+        other_ctrls: if r.chance(1, 2) { (0..1 + r.usize(4)).map(|i| Ctl { oid: gen_oid(&mut r).into_bytes(), crit: None, val: Some(format!("other{i}").into_bytes()) }).collect() } else { vec![] },
         page_delay_ms: *r.pick(&[0, 0, 1]),
         page_sizes: if r.chance(1, 3) { (0..1 + r.usize(5)).map(|_| *r.pick(&[0usize, 0, 1, 2, 3, 7])).collect() } else { vec![] },
         extra_empty_last_page: r.chance(1, 4),
         stall_at_page: None,
+        paged_ctrl_pos: if r.chance(1, 2) { Some(r.usize(5)) } else { None },
     });
     let nclients = if r.chance(1, 4) { 2 } else { 1 };
     for c in 0..nclients {
@@ -1820,6 +1846,37 @@ pub fn gen_sync(seed: u64) -> Scenario {
     }
     if !idle_close && r.chance(1, 4) && arrival > 0 {
         sc.plan.close_on_arrival = Some(r.usize(arrival));
+    }
+    // One script in six ends with a paged search (its follow-up requests would shift the arrival numbers the
+    // plans of later calls are keyed by, so it comes last): last_id() of the stream follows the current page.
+    if r.chance(1, 6) {
+        let n = 2 + r.usize(7);
+        let size = 1 + r.usize(3);
+        sc.plan.paging = Some(PagingModel {
+            n,
+            cap: 0,
+            cookie_seed: r.next_u64(),
+            empty_first_page: false,
+            supports_paging: true,
+            final_rc: *r.pick(&[0, 0, 4, 10]),
+            other_ctrls: vec![],
+            page_delay_ms: 0,
+            page_sizes: vec![],
+            extra_empty_last_page: r.chance(1, 4),
+            stall_at_page: None,
+            paged_ctrl_pos: None,
+        });
+        let tok = "pgd".to_string();
+        sc.plan.by_token.insert(tok.clone(), ReplyPlan::Paged);
+        let adapter = *r.pick(&[Adapter::Paged(size as i32), Adapter::Paged(size as i32), Adapter::EntriesOnlyPaged(size as i32), Adapter::PagedEntriesOnly(size as i32)]);
+        let mut search = gen_search_spec(&mut r, tok.clone());
+        search.base = tok.clone();
+        cs.steps.push(Step::Open { token: tok, slot, search, adapter, mods: if r.chance(1, 3) { gen_mods(&mut r) } else { Mods::default() } });
+        let reads = if r.chance(2, 3) { n + 1 } else { r.usize(n + 1) };
+        for _ in 0..reads {
+            cs.steps.push(Step::Next { slot, cancel_after_polls: None });
+        }
+        cs.steps.push(Step::Finish { slot });
     }
     sc.clients.push(cs);
     sc.id_table = gen_id_start(&mut r);
@@ -2165,6 +2222,7 @@ fn base_case(lane: &str) -> EstabCase {
         std_stream: StdKind::None,
         sync_api: false,
         peer: Peer::Accept,
+        clone_settings: false,
     }
 }
 
@@ -2238,6 +2296,7 @@ pub fn gen_estab_url(seed: u64) -> Scenario {
         c.starttls = r.chance(1, 10);
     }
     c.sync_api = c.conn_timeout_ms.is_none() && r.chance(1, 3);
+    c.clone_settings = c.std_stream == StdKind::None && r.chance(1, 6);
     estab_scenario("ESTABURL", &c)
 }
 
@@ -2280,7 +2339,13 @@ pub fn gen_estab_tls(seed: u64) -> Scenario {
     }
     c.peer = Peer::Tls { starttls: st.clone(), tls };
     c.std_stream = if c.host != HostForm::Ip6 && r.chance(1, 7) { StdKind::Tcp } else { StdKind::None };
-    c.sync_api = c.conn_timeout_ms.is_none() && st != StartTlsResp::SuccessPlusInjected && r.chance(1, 4);
+    if c.conn_timeout_ms.is_none() && r.chance(1, 12) {
+        // a pre-opened Unix stream cannot carry the TLS the URL asks for: establishment must fail
+        c.std_stream = StdKind::Unix;
+    }
+    // a clone of the settings must behave like the original (a cloned pre-opened stream is not usable by design)
+    c.clone_settings = c.std_stream == StdKind::None && r.chance(1, 5);
+    c.sync_api = c.conn_timeout_ms.is_none() && st != StartTlsResp::SuccessPlusInjected && c.std_stream != StdKind::Unix && r.chance(1, 4);
     estab_scenario("ESTABTLS", &c)
 }
 
@@ -2303,6 +2368,7 @@ pub fn gen_paged_fault_base(seed: u64) -> Scenario {
         page_sizes: vec![],
         extra_empty_last_page: r.chance(1, 4),
         stall_at_page: None,
+        paged_ctrl_pos: None,
     });
     let tok = "c0p0".to_string();
     sc.plan.by_token.insert(tok.clone(), ReplyPlan::Paged);
